@@ -74,8 +74,12 @@ func (obj *LongFloat) Equal(other Object) (eq bool) {
 	case *LongFloat:
 		eq = (*big.Float)(obj).Cmp((*big.Float)(to)) == 0
 	case *Ratio:
-		f, exact := (*big.Rat)(to).Float64()
-		eq = exact && (*big.Float)(obj).Cmp(big.NewFloat(f)) == 0
+		// Compare the exact values. Going through float64 made a long-float
+		// with more than double precision differ from the ratio of the same
+		// value.
+		if r, _ := (*big.Float)(obj).Rat(nil); r != nil {
+			eq = r.Cmp((*big.Rat)(to)) == 0
+		}
 	case *Bignum:
 		f := (*big.Float)(obj)
 		if f.IsInt() {
